@@ -20,7 +20,7 @@ ASSUMPTIONS = [
 ]
 MAX_POOL = 8
 QUERIES = ['positions', 'displacements', 'cumulative', 'distances', 'msd', 'diffusivity', 'speed', 'volume', 'drift', 'com', 'transitions',
-           'drift_correct', 'structure', 'lattice', 'rdf', 'len', 'shape', 'free_energy', 'all_metrics', 'site_analysis']
+           'drift_correct', 'structure', 'lattice', 'rdf', 'len', 'shape', 'free_energy', 'all_metrics', 'site_analysis', 'iterate']
 
 
 class Model:
@@ -190,6 +190,17 @@ class TrajMachine(LogMachine):
             s2 = gcall(t.get_structure, k)
             if oracle.circ_diff(np.array(s2.frac_coords), m.pos[k]).max() > 1e-9:
                 raise Violation('index-frame', f'get_structure({k}) differs from frame {k} of the data')
+        elif what == 'iterate':
+            # frame-by-frame iteration (for structure in trajectory) with another read-only query issued in the middle of the loop
+            mid = op.get('k', 0) % max(T, 1)
+            it = gcall(lambda: iter(t))
+            for f in range(T):
+                s = gcall(lambda: next(it))
+                if oracle.circ_diff(np.array(s.frac_coords), m.pos[f]).max() > 1e-9 or [x.symbol for x in s.species] != m.symbols:
+                    raise Violation('index-frame', f'frame {f} yielded while iterating over the trajectory differs from frame {f} of the data (a displacement query was issued after frame {mid})')
+                if f == mid:
+                    gcall(t.distances_from_base_position if op.get('k', 0) % 2 else (lambda: t.displacements))
+                    self.flags['disp_switch'] = True
         elif what == 'lattice':
             if np.abs(np.array(gcall(t.get_lattice).matrix) - m.matrix).max() > 1e-9:
                 raise Violation('lattice', 'get_lattice')
@@ -328,7 +339,7 @@ class TrajMachine(LogMachine):
     def r_read_switching(self, i, what):
         self.step({'op': 'read', 'i': i, 'what': what, 'k': 0})
 
-    @rule(i=st.integers(0, 7), what=st.sampled_from(['positions', 'structure', 'volume', 'transitions', 'rdf', 'diffusivity', 'msd']), k=st.integers(0, 60))
+    @rule(i=st.integers(0, 7), what=st.sampled_from(['positions', 'structure', 'volume', 'transitions', 'rdf', 'diffusivity', 'msd', 'iterate']), k=st.integers(0, 60))
     def r_read_values(self, i, what, k):
         self.step({'op': 'read', 'i': i, 'what': what, 'k': k})
 
